@@ -1,2 +1,56 @@
-(* C08 - size limit, truncation, padding (theorems are added below) *)
+(* C08 - rendered messages respect the size limit; truncation and padding are exact.
+   Model: Model/MessageM.v (to_wire = Message.to_wire with Renderer).  Proofs: Proofs/MessageSize.v *)
 From DV Require Import Base.Prelude Model.NameM Model.MessageM.
+From DV Require Import Proofs.MessageRender Proofs.MessageSize.
+Open Scope Z_scope.
+
+(* a rendered message never exceeds its effective limit (512 <= limit <= 65535 after the clamp) *)
+Theorem size_bound : forall m origin max_size request_payload prefer_truncation pad w,
+  to_wire m origin max_size request_payload prefer_truncation pad = Ok w ->
+  zlen w <= eff_limit max_size request_payload /\ 512 <= eff_limit max_size request_payload <= 65535.
+Proof. intros. split; [eapply size_bound_lemma; eassumption|apply eff_limit_range]. Qed.
+Print Assumptions size_bound.
+
+(* a record set that does not fit is removed whole (output, table, counts exactly as before, no
+   table offset at or beyond the cut); one that fits is present whole with all its records counted *)
+Theorem rollback_whole_rrset : forall origin sec rs r b r',
+  0 <= sec <= 3 -> TblBelow r -> add_rrset origin sec rs r = Ok (b, r') ->
+  exists em new,
+    rrset_em rs origin true (zlen (out r)) (tbl r) = Ok (em, tbl r ++ new) /\
+    if b then
+      zlen (out r) + zlen em > maxsz r /\
+      out r' = out r /\ tbl r' = tbl r /\ TblBelow r' /\
+      (cq r', can r', cau r', cad r') = (cq r, can r, cau r, cad r)
+    else
+      zlen (out r') <= maxsz r' /\
+      out r' = out r ++ em /\ tbl r' = tbl r ++ new /\ TblBelow r' /\
+      cq r' + can r' + cau r' + cad r' = cq r + can r + cau r + cad r + rrset_count rs.
+Proof. exact rollback_whole_rrset_lemma. Qed.
+Print Assumptions rollback_whole_rrset.
+
+(* at the end of Message.to_wire no compression-table offset points at or beyond the end *)
+Theorem no_offset_beyond_end : forall m origin max_size request_payload prefer_truncation pad r,
+  to_wire_st m origin max_size request_payload prefer_truncation pad = Ok r ->
+  Forall (fun kv => snd kv < zlen (out r)) (tbl r).
+Proof. exact table_inside_lemma. Qed.
+Print Assumptions no_offset_beyond_end.
+
+(* ---- non-vacuity: a message that is truncated at limit 512, and one rolled-back record set ---- *)
+Definition ex_rr (k : Z) : rrset :=
+  mkRR [[119; 119; 119]; [101; 120]; []] 1 16 0 None 300 [[PB (200 :: repeat k 200)]].
+Definition ex_msg : msg :=
+  mkMsg 7 256 [mkRR [[119; 119; 119]; [101; 120]; []] 1 16 0 None 0 []]
+        [ex_rr 1; ex_rr 2; ex_rr 3] [] [] (Some (mkOpt 0 1232 [])) None.
+
+Example truncated_at_512 :
+  exists w, to_wire ex_msg None 512 0 true 0 = Ok w /\ zlen w = 461 /\ nth 2 w 0 = 3.
+Proof. eexists. vm_compute. repeat split; reflexivity. Qed.
+
+Example too_big_at_512 : to_wire ex_msg None 512 0 false 0 = Lib eTooBig.
+Proof. vm_compute. reflexivity. Qed.
+
+Example rollback_happens :
+  exists r', add_rrset None 1 (ex_rr 1)
+                       (mkRst (repeat 0 400) [] 0 0 0 0 0 0 512 0 false) = Ok (true, r')
+             /\ zlen (out r') = 400.
+Proof. eexists. vm_compute. split; reflexivity. Qed.
